@@ -325,7 +325,7 @@ def document_histories(ctx, builds):
     ctx.extra["document_model_rejected_designs_violate"] = dict(overwrite_leaks=v2, free_old_dangles=v3, slot_views_dangle=v4)
     depth = 12 if q else 25
     cfg = f"CONSTANTS Docs = {{1, 2}} TreeSizes = {{0, 2}} SchemaChain = TRUE FixSchemaLeak = FALSE SlotStringsOwned = TRUE Depth = {depth}\nINIT GInit\nNEXT GNext\nINVARIANT EmitBeh\nCHECK_DEADLOCK FALSE\n"
-    recs = ctx.tlc_emit("Gen_Document", cfg=cfg, simulate=40 if q else 800, depth=depth + 1, workers=8, timeout=1200, xmx="6g")
+    recs = ctx.tlc_emit("Gen_Document", cfg=cfg, simulate=40 if q else 60, depth=depth + 1, workers=8, timeout=1200, xmx="6g")
     rows = []
     for bid, r_ in enumerate(recs):
         for i, st in enumerate(r_["steps"]):
